@@ -75,10 +75,10 @@ def rule_b(repo, chk):
         w = paired_correlated(g, s, lambda n: isinstance(n.ast, ast.Assign) and repo.resolve(n.ast.targets[0]) == 'sys.path' and isinstance(n.ast.value, ast.Name) and n.ast.value.id != 'sys_path')
         chk.ob('C10.b', w is None, s, 'and restores the previous one on every exit', w or '')
     fm = calls_in(g, '_find_module')
-    ok = len(fm) == 1 and any(k.arg is None for k in fm[0].keywords) and norm(kwarg(fm[0], 'full_name')) == 'full_name'
+    ok = bool(fm) and all(any(k.arg is None for k in c_.keywords) and norm(kwarg(c_, 'full_name')) == 'full_name' for c_ in fm)
     chk.ob('C10.b', ok, g, 'the lookup itself is _find_module(full_name=..., **kwargs)')
     rets = [r for r in stmts_in(g, ast.Return) if norm(r.value) == '(None, None)']
-    ok = len(rets) == 1 and any(isinstance(a, ast.ExceptHandler) and 'ImportError' in norm(a.type) for a in repo.ancestors(rets[0]))
+    ok = bool(rets) and all(any(isinstance(a, ast.ExceptHandler) and 'ImportError' in norm(a.type) for a in repo.ancestors(r)) for r in rets)
     chk.ob('C10.b', ok, g, 'ImportError means "no such module": (None, None)')
     f = repo.find(FUNCS, '_find_module')
     loops = [n for n in own_nodes(f) if isinstance(n, ast.For) and repo.resolve(n.iter) == 'sys.meta_path']
